@@ -14,6 +14,7 @@ import StepModel.HeaderIds
     writework [<writeComments 0|1>]                         -> W <L> <inst> | …          (what WriteWorkingData emits; default 1)
     fileheader <hex>*                                       header entities of the file the next read / readwork stands for -> R ok
     header                                                  -> H <hex>*                  (header instances the STEPfile holds = what a save writes)
+    appendwork                                              AppendWorkingFile, empty DATA section only (header instances)   -> R incr=… n=… max=…
     hids                                                    -> H <id>/<NAME> …           (file ids of the header instances held, list order; as `hdr` of the harness)
     hwrite                                                  -> H <hex>*                  (the header instances `WriteHeader` writes, by the id model)
     anything else -> R bad-op -/
@@ -157,6 +158,9 @@ def handle (st : St) (line : String) : St × String :=
                    hst := HeaderIds.readFileH .readWorking st.hst (st.nextHeader.map hentOf) }, readReply (fileIdIncrOf cleared.maxId) fs.sess)
       else (st, "R bad-schema")
     | none => (st, "R bad-op")
+  | ["appendwork"] =>    -- AppendWorkingFile of a file with an empty DATA section: only the header instances change
+    ({ st with hst := HeaderIds.readFileH .appendWorking st.hst (st.nextHeader.map hentOf) },
+      readReply (fileIdIncrOf st.sess.maxId) st.sess)
   | ["setstate", i, s] =>
     match i.toNat?, parseSt s with
     | some i, some ns =>
